@@ -513,14 +513,17 @@ class OpGen:
             if r < 0.10 or not usable and r < 0.5:
                 parts.append("__typename" if rng.random() < 0.7 else "tn: __typename")
                 self.features.add("typename")
-            elif r < 0.22 and not deep:
+            elif r < (0.34 if t["kind"] in ("interface", "union") else 0.22) and not deep:
                 conds = self.type_conditions_for(parent)
                 if rng.random() < 0.3 or not conds:
                     parts.append("...%s { %s }" % (self.directives(), self.selection_set(parent, depth + 1)))
                     self.features.add("inline-untyped")
                 else:
                     tc = rng.choice(conds)
-                    parts.append("... on %s%s { %s }" % (tc, self.directives(), self.selection_set(tc, depth + 1)))
+                    body = self.selection_set(tc, depth + 1)
+                    if rng.random() < 0.3:
+                        body = "__typename " + body       # defined on every runtime type: shows whether the condition applied
+                    parts.append("... on %s%s { %s }" % (tc, self.directives(), body))
                     self.features.add("inline-typed")
             elif r < 0.36 and not deep:
                 conds = self.type_conditions_for(parent)
